@@ -527,7 +527,7 @@ fn main() {
     driver::main(CheckDef {
         prop: "C12",
         level: "model_checking",
-        rule: "direct: every sequence of the stated depth over 13 operations (update of 4 metrics incl. the same key under three kinds and a gauge update leaving the value unchanged; clock advance by 1, T-1, T, T+1 ticks; observe one metric; observe all) on the real Recency + Registry<Key, GenerationalAtomicStorage> under quanta's mock clock, for masks {NONE, COUNTER, GAUGE|HISTOGRAM, ALL} with the timeout and ALL without; via Prometheus: every sequence over {inc, set, record, advance 1/T/T+1, render} through verif_build_with_clock and the strict parser; reference per (kind,key): (generation, time of the last observation that saw a change); E1: every SC interleaving (pb-bounded) of one update (counter increment / gauge increment / histogram record through the exporter's generational handles) with an observation (clock advance + render) between two sequential observations: the racing update is reported before the metric can be dropped as idle; distinct = distinct reference states",
+        rule: "direct: every sequence of the stated depth over 13 operations (update of 4 metrics incl. the same key under three kinds and a gauge update leaving the value unchanged; clock advance by 1, T-1, T, T+1 ticks; observe one metric; observe all) on the real Recency + Registry<Key, GenerationalAtomicStorage> under quanta's mock clock, for masks {NONE, COUNTER, GAUGE|HISTOGRAM, ALL} with the timeout and ALL without; via Prometheus: every sequence over {inc, set, record, advance 1/T/T+1, render} through verif_build_with_clock and the strict parser; reference per (kind,key): (generation, time of the last observation that saw a change); E1: every SC interleaving (pb-bounded) of one update (counter increment / gauge increment / histogram record through the exporter's generational handles) with an observation (clock advance + render) between two sequential observations: the racing update is reported before the metric can be dropped as idle; distinct = distinct reference states; a registration that writes nothing (get-or-create with an empty operation) for a counter and a histogram is part of the alphabet",
         assumptions: &["time only advances through the mock clock", "the direct part observes a metric the way the exporters do: look the handle up, read its generation, ask should_store_*"],
         parts,
         run,
